@@ -157,7 +157,9 @@ def define(*args, **kwargs):
     # Moved to utils module
     import warnings
 
-    from . import utils
+    # utils lives in nipy.modalities.fmri, which imports this module: hence
+    # the late import
+    from nipy.modalities.fmri import utils
     warnings.warn('Please use define function from utils module',
                   DeprecationWarning,
                   stacklevel=2)
